@@ -63,13 +63,16 @@ def check_sub(kind, obj, nsdecl, nsmap):
         # (rules with selectors need the sheet's namespace declarations in front; @charset, @import and @namespace
         # must come first themselves)
         needs_ns = kind in ('style-rule', 'media-rule', 'page-rule', 'font-face-rule')
+        if not text:
+            # a rule that holds nothing is not written (keepEmptyRules): nothing to re-parse
+            return '' if not G.prune([G.rule_model(obj)]) else '%s %r is not written' % (kind, G.rule_model(obj))
         sh = P.parse((nsdecl if needs_ns else '') + text)
         got = [r for r in sh.cssRules]
         if needs_ns:
             got = got[nsdecl_count(nsdecl):]
         if len(got) != 1:
             return '%s %r re-parses to %d rules' % (kind, text[:200], len(got))
-        d = P.diff(G.rule_model(got[0]), G.rule_model(obj))
+        d = P.diff(G.prune([G.rule_model(got[0])]), G.prune([G.rule_model(obj)]))
         if d:
             return '%s %r re-parses differently: %s' % (kind, text[:200], P.show(d, 120))
         if got[0].cssText != text:
@@ -137,10 +140,10 @@ def sheet_case(seed):
     ast = G.gen_sheet(rnd)
     src = G.render_sheet(ast, G.Layout(rnd) if seed % 3 else G.Layout(None), G.Respell(rnd) if seed % 2 else G.Plain())
     sheet = P.parse(src)
-    m0 = G.sheet_model(sheet, comments=True)
+    m0 = G.prune(G.sheet_model(sheet, comments=True))          # (blocks that hold nothing are not written)
     t1 = sheet.cssText
     s2 = P.parse(t1)
-    d = P.diff(G.sheet_model(s2, comments=True), m0)
+    d = P.diff(G.prune(G.sheet_model(s2, comments=True)), m0)
     if d:
         return 'sheet', 'the text %r of sheet %r re-parses differently: %s' % (t1[:300], src[:300], P.show(d, 160))
     def verdicts(sh):
@@ -148,7 +151,8 @@ def sheet_case(seed):
 
         def walk(rs):
             for r in rs:
-                if hasattr(r, 'style') and r.style is not None:
+                if hasattr(r, 'style') and r.style is not None and r.style.getProperties(all=True):
+                    # (a block that holds nothing is not written)
                     out.append([p.valid for p in r.style.getProperties(all=True)])
                 if hasattr(r, 'cssRules'):
                     walk(r.cssRules)
